@@ -84,7 +84,7 @@ def run(prop, prop_v, tier, seed, replay, harness_args, own_monitors, what):
         if os.path.isdir(corpus):
             for f in sorted(os.listdir(corpus)):
                 extra.append([l.strip() for l in open(os.path.join(corpus, f)) if "|=>|" in l])
-        return D.differential(res, prop, hexe, args, mexe, property_ops=(), extra_inputs=extra, timeout=1500)
+        return D.differential(res, prop, hexe, args, mexe, property_ops=(), extra_inputs=extra, timeout=300)
 
     with cf.ThreadPoolExecutor(max_workers=2) as ex:
         f1, f2 = ex.submit(tie), ex.submit(diff)
